@@ -23,9 +23,12 @@ func scaleFamilies() []*scaleFam {
 }
 
 func scaleFamiliesBuild() []*scaleFam {
-	all := append(scaleSchemas(), specialFamilies()...)
+	all := append(append(scaleSchemas(), specialFamilies()...), gridFamilies()...)
 	// families that exercise a sentence of two properties are run under both
-	for _, also := range [][2]string{{"a callee n frames below the function whose parameter it assigns", "C09"}, {"n pattern rules between a BEGIN and an END rule", "C07"}} {
+	for _, also := range [][2]string{{"a callee n frames below the function whose parameter it assigns", "C09"}, {"n pattern rules between a BEGIN and an END rule", "C07"},
+		{"a function of p parameters recursing d deep, with a parameter assigned from the recursive call", "C09"}, {"a function of p parameters recursing d deep, with a parameter assigned from the recursive call", "C20"},
+		{"a recursion d deep with e pending operators around the recursive call", "C20"}, {"a width and an argument of given lengths; two widths in a row", "C20"},
+		{"a call of n arguments whose k-th argument is itself a call", "C16"}, {"a for-in statement that walks a growing object of n keys twice", "C07"}} {
 		for _, f := range all {
 			if f.Name == also[0] {
 				g := *f
@@ -401,6 +404,8 @@ func scaleSchemas() []*scaleFam {
 			return scaleCase{Prog: prog, Files: []inFile{{Name: "in.json", Text: in}}, Want: itoa(n) + "\n", CLI: n%64 < 3 || n < 80}
 		}},
 		{Prop: "C03", Name: "a stream of n values handed out one value per Read, output watched at every Read", Max: 3000, QMax: 600, Custom: c03LongStream},
+		{Prop: "C03", Name: "a stream of n values whose first Reads are answered with a full buffer, the rest one value per Read", Max: 3000, QMax: 600, Custom: c03BurstStream},
+		{Prop: "C03", Name: "a big value, two small ones, then a malformed byte, for every pair of value size and Read size", Max: len(c03BigThenBadGrid), QMax: len(c03BigThenBadGrid), All: true, Custom: c03BigThenBad},
 		{Prop: "C03", Name: "n complete values in front of a malformed one", Max: 70000, QMax: 5000, Build: func(n int) scaleCase {
 			in := seqs2(n, "\n", func(k int) string { return "[" + itoa(k) + "]" }) + "\n[1, }"
 			prog := "{ print $ }\nEND { print \"end\" }\n"
